@@ -8,12 +8,14 @@ import A2lVerif.Driver.Graph
 import A2lVerif.Driver.Cleanup
 import A2lVerif.Driver.Include
 import A2lVerif.Driver.Merge
+import A2lVerif.Driver.A2ml
 /-! `a2lmodel`: one request per line on stdin, one canonical answer per line on stdout. -/
 open A2l
 
 def dispatch (line : String) : String :=
   match (line.trimAscii.toString.splitOn " ").filter (· ≠ "") with
   | "il" :: args => IL.handle args
+  | "aml" :: args => Aml.handle args
   | "cln" :: args => Cl.handle args
   | "inc" :: args => Inc.handle args
   | "mrg" :: args => Mg.handle args
